@@ -14,14 +14,25 @@
 //
 // Oracle: converter.ToSPDX23 / ToCDX -> binary/spdx.Write23 / binary/cdx.Write into a fresh
 // directory -> filesystem.Run with the sbom/spdx and sbom/cdx extractors over that directory.
-// The multiset of ToPURL().String() of the returned packages must equal the multiset of PURL
-// strings present in the in-memory document that was written; both sides are compared in the
-// canonical form purl.String(purl.FromString(s)) when s parses (raw otherwise).
+// Reference R = multiset of ToPURL().String() over the INVENTORY's packages that have a
+// package URL (minus the exclusion of DC1). The multiset read back must equal R. To name the
+// cause the comparison is split in two, separately keyed halves whose conjunction is exactly
+// "read back == R":
+//
+//	export:*     R  vs  PURL strings present in the in-memory document that is written
+//	roundtrip:*  PURL strings of that document  vs  ToPURL().String() of the packages returned
+//
+// All sides are compared in the canonical form purl.String(purl.FromString(s)) when s parses
+// (raw otherwise).
 //
 // Don't-care cells:
 //
-//	DC1  which packages the converter puts into the document (PURL-less packages, SPDX without
-//	     version): the reference is the document itself (C14 owns "every eligible package is in it").
+//	DC1  SPDX only: a package whose PURL has an empty name or an empty version is not expected
+//	     back. This is the one exclusion the converter states itself (converter/converter.go,
+//	     ToSPDX23: `log.Warnf("Package %v PURL name or version empty, skipping", pkg)`); the other
+//	     stated skip ("has no PURL, skipping") concerns packages that are not in R anyway.
+//	     ToCDX states no exclusion: every PURL-bearing package is expected back. No exclusion is
+//	     inferred from behaviour.
 //	DC2  names, versions, locations, ids, timestamps, the SPDX "main" package, CPE-only entries:
 //	     only PURLs of the returned packages are compared; packages returned without PURL are ignored.
 //	DC3  order of the returned packages (multiset).
@@ -164,10 +175,13 @@ func canon(s string) string {
 }
 
 type outcome struct {
+	Inv       []string `json:"purls_of_inventory_expected_back"`
 	Expected  []string `json:"purls_in_written_document"`
 	Got       []string `json:"purls_read_back"`
-	Lost      []string `json:"lost"`
-	Spurious  []string `json:"spurious"`
+	ExpLost   []string `json:"export_lost"`     // in the inventory, not in the document
+	ExpSpur   []string `json:"export_spurious"` // in the document, not in the inventory
+	Lost      []string `json:"lost"`            // in the document, not read back
+	Spurious  []string `json:"spurious"`        // read back, not in the document
 	WriteErr  string   `json:"write_error,omitempty"`
 	ScanErr   string   `json:"scan_error,omitempty"`
 	ReadFail  string   `json:"sbom_extractor_failure,omitempty"`
@@ -176,8 +190,14 @@ type outcome struct {
 }
 
 func (o *outcome) ok() bool {
-	return o.WriteErr == "" && o.Panic == "" && len(o.Lost) == 0 && len(o.Spurious) == 0
+	return o.WriteErr == "" && o.Panic == "" && o.rtOK() && o.exOK()
 }
+
+// rtFailed: the document -> file -> importer half failed (or nothing could be written).
+func (o *outcome) rtFailed() bool { return o.WriteErr != "" || o.Panic != "" || !o.rtOK() }
+
+func (o *outcome) rtOK() bool { return len(o.Lost) == 0 && len(o.Spurious) == 0 }
+func (o *outcome) exOK() bool { return len(o.ExpLost) == 0 && len(o.ExpSpur) == 0 }
 
 func multisetDiff(a, b []string) (onlyA []string) {
 	cnt := map[string]int{}
@@ -209,6 +229,17 @@ func cdxPurls(cs *[]cyclonedx.Component, out *[]string) {
 
 // roundTrip exports the inventory in one format into dir and scans dir.
 func roundTrip(inv []poolItem, f format, dir string) (o outcome) {
+	isSPDX := strings.HasPrefix(f.Name, "spdx23")
+	for _, p := range inv {
+		if p.U == nil {
+			continue
+		}
+		if isSPDX && (p.U.Name == "" || p.U.Version == "") {
+			continue // DC1: the exclusion ToSPDX23 states
+		}
+		o.Inv = append(o.Inv, canon(p.U.String()))
+	}
+	sort.Strings(o.Inv)
 	pv, st := ev.Recover(func() {
 		pkgs := make([]*extractor.Package, 0, len(inv))
 		for _, p := range inv {
@@ -281,6 +312,10 @@ func roundTrip(inv []poolItem, f format, dir string) (o outcome) {
 	}
 	o.Lost = multisetDiff(o.Expected, o.Got)
 	o.Spurious = multisetDiff(o.Got, o.Expected)
+	if o.Panic == "" {
+		o.ExpLost = multisetDiff(o.Inv, o.Expected)
+		o.ExpSpur = multisetDiff(o.Expected, o.Inv)
+	}
 	return o
 }
 
@@ -326,7 +361,7 @@ func doReplay(file string) {
 	out, _ := json.MarshalIndent(o, "", " ")
 	fmt.Printf("replay %s format=%s inventory=%d packages\n%s\n", rec.Key, f.Name, len(rec.Replay.Inventory), out)
 	if !o.ok() {
-		fmt.Println("reproduced: the read-back PURL multiset differs from the written document")
+		fmt.Println("reproduced: inventory, written document and read-back PURL multisets are not all equal")
 		os.Exit(1)
 	}
 	fmt.Println("not reproduced: round trip is exact")
@@ -450,12 +485,11 @@ func main() {
 		seqMu.Unlock()
 		return fmt.Sprintf("%s/w%d/%d", root, n%64, n) // sharded parents: no directory-lock contention
 	}
-	// distinct non-trivial case = (format, canonical PURL multiset actually present in the written
-	// document), non-empty: inventories that differ only in order or in PURL-less / skipped
+	// distinct non-trivial case = (format, canonical PURL multiset expected back), non-empty: inventories that differ only in order or in PURL-less / skipped
 	// packages are one case.
 	distinct := func(o *outcome, f format) {
-		if len(o.Expected) > 0 {
-			r.Distinct(f.Name + "|" + strings.Join(o.Expected, " "))
+		if len(o.Inv) > 0 {
+			r.Distinct(f.Name + "|" + strings.Join(o.Inv, " "))
 		}
 	}
 
@@ -497,7 +531,7 @@ func main() {
 	}
 	famFails := map[string]int{} // family|poolIdx|kind -> failing formats
 	for i, o := range res1 {
-		if o == nil || o.ok() || len(jobs1[i].inv) == 0 {
+		if o == nil || !o.rtFailed() || len(jobs1[i].inv) == 0 {
 			continue
 		}
 		famFails[fmt.Sprintf("%s|%d|%s", family(formats[jobs1[i].f]), jobs1[i].inv[0], kindOf(o))]++
@@ -511,7 +545,7 @@ func main() {
 	}
 	failByShape := map[string]map[string]bool{} // label|shape|kind -> failing types
 	for i, o := range res1 {
-		if o == nil || o.ok() || len(jobs1[i].inv) == 0 {
+		if o == nil || !o.rtFailed() || len(jobs1[i].inv) == 0 {
 			continue
 		}
 		p := P[jobs1[i].inv[0]]
@@ -528,8 +562,88 @@ func main() {
 		}
 		return p.Type + "|" + p.Shape
 	}
+	// export half (inventory vs written document). The converter is shared by the formats of a
+	// family, so the key carries the family.
+	exKind := func(o *outcome) string {
+		switch {
+		case len(o.ExpLost) > 0 && len(o.ExpSpur) > 0:
+			return "altered"
+		case len(o.ExpSpur) > 0:
+			return "spurious"
+		}
+		return "lost"
+	}
+	singleExFail := map[string]string{} // family|pool id -> key
+	purlsOf := func(inv []poolItem) []string {
+		var ps []string
+		for _, p := range inv {
+			if p.U == nil {
+				ps = append(ps, "<no purl>")
+			} else {
+				ps = append(ps, p.U.String())
+			}
+		}
+		return ps
+	}
+	exportKey := func(f format, idx []int, inv []poolItem, o *outcome) string {
+		fam := family(f)
+		if len(inv) == 0 {
+			return "export:" + fam + ":empty-inventory:" + exKind(o)
+		}
+		if len(inv) == 1 {
+			return "export:" + fam + ":" + inv[0].Shape + ":" + exKind(o)
+		}
+		for _, p := range inv { // a member whose export already fails alone is the root cause
+			if k, ok := singleExFail[fam+"|"+idOf(p)]; ok {
+				return k
+			}
+		}
+		dup, sameTNV, nopurl := false, false, false
+		var ss []string
+		for a, p := range inv {
+			ss = append(ss, p.Shape)
+			if p.U == nil {
+				nopurl = true
+				continue
+			}
+			for b := 0; b < a; b++ {
+				q := inv[b]
+				if q.U == nil {
+					continue
+				}
+				if idx[a] == idx[b] {
+					dup = true
+				} else if strings.EqualFold(p.U.Type, q.U.Type) && p.U.Name == q.U.Name && p.U.Version == q.U.Version {
+					sameTNV = true
+				}
+			}
+		}
+		sort.Strings(ss)
+		what := "interaction:" + strings.Join(ss, "+")
+		switch {
+		case sameTNV:
+			what = "same-type-name-version-different-purl"
+		case dup:
+			what = "duplicate-packages"
+		case nopurl:
+			what = "with-purl-less-package"
+		}
+		return "export:" + fam + ":" + what + ":" + exKind(o)
+	}
+	reportExport := func(f format, idx []int, inv []poolItem, o *outcome) {
+		k := exportKey(f, idx, inv, o)
+		if len(inv) == 1 {
+			singleExFail[family(f)+"|"+idOf(inv[0])] = k
+		}
+		r.Violation(k, fmt.Sprintf("%s, inventory %q: PURLs expected back %q, but the document built by the converter holds %q (missing %q, extra %q)", f.Name, purlsOf(inv), o.Inv, o.Expected, o.ExpLost, o.ExpSpur), replay{f.Name, inv})
+	}
 	for i, o := range res1 {
-		if o == nil || o.ok() {
+		if o != nil && o.Panic == "" && !o.exOK() {
+			reportExport(formats[jobs1[i].f], jobs1[i].inv, get(jobs1[i]), o)
+		}
+	}
+	for i, o := range res1 {
+		if o == nil || !o.rtFailed() {
 			continue
 		}
 		j := jobs1[i]
@@ -632,12 +746,20 @@ func main() {
 	invID := func(j job) string { return fmt.Sprint(j.q, j.inv) }
 	famFails2 := map[string]int{}
 	for _, fl := range fails {
-		famFails2[family(formats[jobs2[fl.i].f])+"|"+invID(jobs2[fl.i])+"|"+kindOf(&fl.o)]++
+		if fl.o.rtFailed() {
+			famFails2[family(formats[jobs2[fl.i].f])+"|"+invID(jobs2[fl.i])+"|"+kindOf(&fl.o)]++
+		}
 	}
 	for _, fl := range fails {
 		j := jobs2[fl.i]
 		f := formats[j.f]
 		inv := get(j)
+		if fl.o.Panic == "" && !fl.o.exOK() {
+			reportExport(f, j.inv, inv, &fl.o)
+		}
+		if !fl.o.rtFailed() {
+			continue
+		}
 		key := ""
 		for _, p := range inv { // a member that already fails alone is the root cause
 			if k, ok := singleFail[f.Name+"|"+idOf(p)]; ok {
@@ -676,15 +798,8 @@ func main() {
 				key = "roundtrip:" + lbl + ":" + what + ":" + kindOf(&fl.o)
 			}
 		}
-		var ps []string
-		for _, p := range inv {
-			if p.U == nil {
-				ps = append(ps, "<no purl>")
-			} else {
-				ps = append(ps, p.U.String())
-			}
-		}
+		ps := purlsOf(inv)
 		r.Violation(key, fmt.Sprintf("%s, inventory %q: document holds %q, scan of %s returned %q (lost %q, spurious %q) %s%s", f.Name, ps, fl.o.Expected, f.File, fl.o.Got, fl.o.Lost, fl.o.Spurious, fl.o.Panic, fl.o.WriteErr), replay{f.Name, inv})
 	}
-	finish("SBOM export (SPDX 2.3 json/yaml/tag-value, CycloneDX json/xml) -> file -> own SBOM extractors: PURL multiset read back == PURL multiset of the written document, canonical forms", done2 == len(jobs2))
+	finish("SBOM export (SPDX 2.3 json/yaml/tag-value, CycloneDX json/xml) -> file -> own SBOM extractors: PURL multiset read back == PURL multiset of the inventory's PURL-bearing packages (export: inventory == document; roundtrip: document == read back), canonical forms", done2 == len(jobs2))
 }
